@@ -239,8 +239,8 @@ def pop_acceptance(args):
         dom_any = Or(*[dominates(x.costs_signed, b.costs_signed) for b in before])
         dominated = Or(*[dominates(b.costs_signed, x.costs_signed) for b in before])
         ctx.check('at-most-one-member-replaced', len(removed) > 1 or (len(removed) == 1) != inserted)
-        ctx.check('members-keep-order-and-offspring-goes-last',
-                  [p.id for p in pop] != [b.id for b in before if not any(b is r for r in removed)] + ([x.id] if inserted else []))
+        ctx.check('population-is-old-members-minus-removed-plus-offspring',
+                  sorted(p.id for p in pop) != sorted([b.id for b in before if not any(b is r for r in removed)] + ([x.id] if inserted else [])))
         # offspring dominates members -> it replaces one of the members it dominates
         ctx.check('dominating-offspring-is-accepted', And(dom_any, not inserted))
         if removed:
